@@ -109,11 +109,18 @@ def coverage(prop, rec, lines, v, mcs, ntraces, extra):
     speaks = rec.get("speaks", lambda e: e.get("op") not in ("Reset", "Cut", "MapLens"))
     keys, n, samples, fams = set(), 0, [], {}
     step = max(1, len(lines) // 7)
+    reads = []
     for i, ln in enumerate(lines):
         try:
             e = json.loads(ln)
         except Exception:
             continue
+        if e.get("op") == "NewMnemonicCall":
+            reads = []
+        elif e.get("op") == "Read":
+            reads.append((e["gave"], e["errkind"]))
+        elif e.get("op") == "NewMnemonic":
+            e["_reads"] = tuple(reads)
         if not speaks(e):
             continue
         n += 1
@@ -204,3 +211,144 @@ RECIPES = {
     "C05": dict(mc=[mc_codec(False)], record=gen_recorder("C05"), props=["C05"], speaks=valid_enc,
                 rule="NewMnemonicByEntropy outputs decoded by the specification's decoder; distinct by (entropy, language); includes all single-bit flips of seeded bases"),
 }
+
+
+# --------------------------------------------------------------------------
+# C06 / C09: the reader protocol.  MC_Reader is checked exhaustively for each
+# accepted word count, its labelled state graph is dumped, and every edge
+# (every k -> k', every failure kind at every k) becomes one scripted reader.
+import re, random
+_reader_graphs = {}
+
+
+def parse_dot(path):
+    nodes, edges, init = {}, [], None
+    node_re = re.compile(r'^(-?\d+) \[label="((?:[^"\\]|\\.)*)"(,style = filled)?')
+    edge_re = re.compile(r'^(-?\d+) -> (-?\d+) \[label="((?:[^"\\]|\\.)*)"')
+    for ln in open(path):
+        m = edge_re.match(ln)
+        if m:
+            edges.append((m.group(1), m.group(2), m.group(3).replace('\\"', '"')))
+            continue
+        m = node_re.match(ln)
+        if m:
+            lab = m.group(2).replace('\\n', '\n').replace('\\"', '"').replace('\\\\', '\\')
+            st = {}
+            for part in lab.split('\n'):
+                mm = re.match(r'\s*/\\ (\w+) = (.*)', part)
+                if mm:
+                    st[mm.group(1)] = mm.group(2).strip('"')
+            nodes[m.group(1)] = st
+            if m.group(3):
+                init = m.group(1)
+    return nodes, edges, init
+
+
+def mc_reader(tier, seed):
+    res = []
+    for w in (12, 15, 18, 21, 24):
+        d = vlib.spec_dir()
+        cfg = vlib.write_cfg(d, "MC_Reader_run.cfg", 'SPECIFICATION Spec\nCONSTANTS W = %d ReadImpl = "readfull" MaxStutter = 1\n'
+                             'INVARIANTS FailClosed FailsOnlyWhenSourceFailed SuccessWhenDelivered RejectedCountsConsumeNothing AcceptedCountsNeverWordLen\n'
+                             'PROPERTY Terminates\nCHECK_DEADLOCK FALSE\n' % w)
+        rc, out, wall = vlib.tlc(d, "MC_Reader.tla", cfg, workers=2, timeout=600, args=["-dump", "dot,actionlabels", "graph.dot"])
+        m = vlib.STAT_RE.findall(out)
+        if "No error has been found" not in out or not m:
+            raise Infra("MC_Reader W=%d failed:\n%s" % (w, out[-2000:]))
+        res.append(dict(module="MC_Reader[W=%d]" % w, states=int(m[-1][0]), distinct=int(m[-1][1]), wall_s=round(wall, 1)))
+        _reader_graphs[w] = parse_dot(os.path.join(d, "graph.dot"))
+    # rejected counts never reach the source
+    for w in (11, 13, 25, 27):
+        cfg = ('SPECIFICATION Spec\nCONSTANTS W = %d ReadImpl = "readfull" MaxStutter = 1\nINVARIANTS RejectedCountsConsumeNothing AcceptedCountsNeverWordLen\n'
+               'PROPERTY Terminates\nCHECK_DEADLOCK FALSE\n' % w)
+        r = vlib.run_mc("MC_Reader", cfg, workers=1, timeout=300)
+        r["module"] = "MC_Reader[W=%d]" % w
+        res.append(r)
+    if tier == "thorough":
+        for impl in ("single", "ignoreerr"):
+            cfg = 'SPECIFICATION Spec\nCONSTANTS W = 12 ReadImpl = "%s" MaxStutter = 1\nINVARIANTS FailClosed\nCHECK_DEADLOCK FALSE\n' % impl
+            r = vlib.run_mc("MC_Reader", cfg, workers=1, timeout=300, expect_violation="FailClosed")
+            r["module"] = "MC_Reader[%s control]" % impl
+            res.append(r)
+    return res
+
+
+def reader_scripts(w, rng, every):
+    """one script per Read edge of the graph: a path to the edge's source state, the edge, a continuation"""
+    nodes, edges, init = _reader_graphs[w]
+    out_edges, parent = {}, {init: None}
+    for (u, v, lab) in edges:
+        out_edges.setdefault(u, []).append((v, lab))
+    # BFS tree with seeded tie-breaking: varied fragmentations lead to the same state
+    order = [init]
+    for u in order:
+        oe = out_edges.get(u, [])[:]
+        rng.shuffle(oe)
+        for (v, lab) in oe:
+            if v not in parent and lab.startswith("Read"):
+                parent[v] = (u, lab)
+                order.append(v)
+
+    def step_of(lab):
+        m = re.match(r'Read\((\d+),"(\w*)"\)', lab)
+        return {"k": int(m.group(1)), "err": m.group(2)}
+
+    scripts = []
+    read_edges = [(u, v, lab) for (u, v, lab) in edges if lab.startswith("Read")]
+    for i, (u, v, lab) in enumerate(read_edges):
+        if i % every:
+            continue
+        path, x = [], u
+        while parent.get(x):
+            x, l2 = parent[x]
+            path.append(step_of(l2))
+        path.reverse()
+        # sometimes reach u by a random walk instead of the tree path
+        path.append(step_of(lab))
+        x = v
+        # continuation: random error-free reads until the buffer is full (the harness source would otherwise deliver all at once)
+        while nodes[x].get("pc") == "loop" and nodes[x].get("err") == "" and int(nodes[x]["n"]) < w + w // 3:
+            cand = [(vv, ll) for (vv, ll) in out_edges.get(x, []) if ll.startswith("Read") and ll.endswith(',"")') and not ll.startswith("Read(0,")]
+            if not cand or rng.random() < 0.3:
+                break
+            x, l3 = rng.choice(cand)
+            path.append(step_of(l3))
+        scripts.append(path)
+    return scripts, len(read_edges)
+
+
+def record_c06(binary, tier, seed):
+    rng = random.Random(seed)
+    steps = [{"op": "swap", "kind": "script"}]
+    nedges = nrun = 0
+    fills = 1 if tier == "quick" else 3
+    for w in (12, 15, 18, 21, 24):
+        scripts, ne = reader_scripts(w, rng, 1)
+        nedges += ne
+        for f in range(fills):
+            for i, sc in enumerate(scripts):
+                lang = (i + f * 3 + seed) % 10
+                steps.append({"op": "new", "n": w, "lang": lang, "script": sc, "after": "data", "fill": f})
+                nrun += 1
+                if nrun % 60 == 0:
+                    steps.append({"op": "cut"})
+    # all two-piece splits and 1-byte reads
+    for w in (12, 15, 18, 21, 24):
+        need = w + w // 3
+        for a in range(1, need):
+            steps.append({"op": "new", "n": w, "lang": (a + seed) % 10, "script": [{"k": a, "err": ""}, {"k": need - a, "err": ""}], "after": "data", "fill": 9})
+        steps.append({"op": "new", "n": w, "lang": seed % 10, "script": [{"k": 1, "err": ""}] * need, "after": "data", "fill": 9})
+        steps.append({"op": "cut"})
+    steps.append({"op": "swap", "kind": "os"})
+    d = vlib.scratch("verif-tr-")
+    prog, out = os.path.join(d, "prog.json"), os.path.join(d, "trace.ndjson")
+    json.dump({"steps": steps}, open(prog, "w"))
+    vlib.run_harness(binary, ["prog", "-arg", prog, "-seed", str(seed), "-out", out])
+    lines = vlib.read_trace(out)
+    return lines, nrun, {"graph_edges_replayed": nedges, "reader_runs": nrun, "exhaustive_edge_cover": True}
+
+
+RECIPES["C06"] = dict(mc=[mc_reader], record=record_c06, props=["C06", "DRIFT"], exhaustive=True,
+                      speaks=lambda e: e.get("op") in ("NewMnemonic", "Read"),
+                      rule="one scripted reader per edge of MC_Reader's state graph (every delivered count k -> k', every failure kind EOF/unexpected EOF/other with or "
+                           "without bytes alongside, (0,nil) reads) for each of the five word counts, plus all two-piece splits and 1-byte reads; distinct by (count, language, reads)")
